@@ -88,7 +88,7 @@ def build(ch):
     pv = pvals[pv_i % len(pvals)]
     ppos = ch.pick('probe.position', ['child', 'root', 'root_before_bases'])
     utype = ch.pick('unit_type', ['compile', 'partial', 'skeleton', 'split_compile', 'type', 'split_type']) if version >= 5 else 'compile'
-    nunits = ch.pick('units', ['one', 'two_mixed', 'three_mixed', 'with_v4_types'])
+    nunits = ch.pick('units', ['one', 'two_mixed', 'three_mixed', 'with_v4_types', 'two_alike'])
     abmode = ch.pick('abbrev_table', ['per_unit', 'shared', 'nonzero_offset'])
     codes = ch.pick('abbrev_codes', ['dense', 'sparse', 'two_byte'])
     tagmode = ch.pick('tags_attrs', ['standard', 'vendor', 'unknown'])
@@ -200,6 +200,19 @@ def build(ch):
         units.insert(0, companion(2, DP(le, fmt, 4 if addr == 8 else 8, 2), 'first_unit'))
     if nunits == 'with_v4_types':
         units.append(companion(3, DP(le, fmt, addr, 4), 'types_unit', in_types=True))
+    if nunits == 'two_alike':
+        # a second unit with the SAME parameters; in DWARF 5 it has its own string-offsets / address contributions and uses the same indices as the first
+        cdp = DP(le, fmt, addr, version)
+        if version >= 5:
+            ca = Abbrev(code[5], TAG['compile_unit'], True, [(AT['name'], F['string'], None), (AT['str_offsets_base'], F['sec_offset'], None), (AT['addr_base'], F['sec_offset'], None)])
+            cb = Abbrev(code[6], TAG['variable'], False, [(AT['name'], F['strx1'], None), (AT['const_value'], F['strx'], None), (AT['low_pc'], F['addrx'], None)])
+            kids2 = [Die(cb, [('strx', 0), ('strx', 1), ('addrx', 0)], label='alike_die'), Die(cb, [('strx', 2), ('strx', 0), ('addrx', 1)], label='alike_die2'), null()]
+            r = Die(ca, [b'alike', ('base', 'str'), ('base', 'addr')], kids2, label='alike_root')
+        else:
+            ca = Abbrev(code[5], TAG['compile_unit'], True, [(AT['name'], F['string'], None)])
+            cb = Abbrev(code[6], TAG['base_type'], False, [(AT['name'], F['string'], None), (AT['byte_size'], F['data1'], None)])
+            r = Die(ca, [b'alike'], [Die(cb, [b'int', 4], label='alike_die'), null()], label='alike_root')
+        units.append(Unit(cdp, r, unit_type=(UT['compile'] if version >= 5 else None), abbrev_key=('shared' if abmode == 'shared' else 'own')))
     labels = {d.label for u in units for d in dg._iter(u.root) if d.label}
     # resolve label aliases used by probe values
     alias = {}
